@@ -123,6 +123,9 @@ func checkC08(w *World) {
 					if sc := staticCallee(x); sc != nil && sc.Name() == "GetTChildI" && len(x.Call.Args) == 2 {
 						if k, ok := constInt(x.Call.Args[1]); ok {
 							tIdx = append(tIdx, k)
+						} else if ks, ok := constArgsFor(x.Call.Args[1], w.handlerClosure(h)); ok {
+							// the index is a parameter of a text helper: the constants this handler passes for it
+							tIdx = append(tIdx, ks...)
 						} else {
 							w.undecided(P, "R08.2", "terminal index of "+h.Name(), x.Pos(), "GetTChildI with a non-constant index")
 						}
@@ -400,3 +403,35 @@ func isTokenClassName(s string) bool {
 }
 
 var _ = types.Identical
+
+// constArgsFor: v is a parameter of its function; the integer constants passed for it at the static calls of that
+// function inside the given set of functions (ok only when every such call passes a constant and there is one).
+func constArgsFor(v ssa.Value, within []*ssa.Function) ([]int64, bool) {
+	p, ok := v.(*ssa.Parameter)
+	if !ok {
+		return nil, false
+	}
+	fn := p.Parent()
+	idx := -1
+	for i, x := range fn.Params {
+		if x == p {
+			idx = i
+		}
+	}
+	var out []int64
+	all := true
+	for _, g := range within {
+		allInstrs(g, func(in ssa.Instruction) {
+			c, ok := in.(ssa.CallInstruction)
+			if !ok || c.Common().StaticCallee() != fn || idx < 0 || idx >= len(c.Common().Args) {
+				return
+			}
+			if k, ok := constInt(c.Common().Args[idx]); ok {
+				out = append(out, k)
+			} else {
+				all = false
+			}
+		})
+	}
+	return out, all && len(out) > 0
+}
